@@ -73,7 +73,7 @@ def module_dir_for(parent_rel):
     return parent_rel[:-3]  # modular.rs -> modular/
 
 
-def make_copy(tag, harness_files, extra_appends=None, narrow=False, cfg_name="kani"):
+def make_copy(tag, harness_files, extra_appends=None, narrow=False, cfg_name="kani", kara_small=False):
     """Copy /repo's working tree and inject the given harness files.
 
     harness_files: list of absolute paths under kani/harness/.  File naming:
@@ -99,6 +99,8 @@ def make_copy(tag, harness_files, extra_appends=None, narrow=False, cfg_name="ka
     if narrow:
         from . import narrow as nw
         nw.apply(os.path.join(crate, "src"))
+        if kara_small:
+            nw.karatsuba_small(os.path.join(crate, "src"))
 
     appends = {}  # parent_rel -> list of lines
     for hf in harness_files:
